@@ -105,7 +105,10 @@ def run_case(case, work):
                                  'data': [[int(x) for x in row] for row in v.data]}
                              for k, v in rd.elements.items()}}
         os.remove(path)
-        return {'lines': lines, 'read': back}
+        # the raw `f` lines (characters, for the text-level model ObjText.face_line); capped: the
+        # oracle-only plates are judged on the tokens
+        fraw = [ln for ln in text.split('\n') if ln[:1] == 'f']
+        return {'lines': lines, 'read': back, 'fraw': fraw if len(fraw) <= 4000 else None}
 
     def v_to_surface_all(fd):
         s = fd.to_surface(remove_unnecessary_nodes=False)
